@@ -12,6 +12,7 @@ construct is lazy, and can record
 """
 from __future__ import annotations
 
+import cmath
 import math
 import operator
 
@@ -270,6 +271,11 @@ def values_equal(a, b) -> bool:
         r = a == b
         if isinstance(r, np.ndarray):
             return bool(r.all())
+        if not r and (isinstance(a, (float, complex)) or isinstance(b, (float, complex))):
+            # floats are by-products (int/int, negative powers); CPython >= 3.12
+            # sums floats with compensation, so a left fold may differ in the
+            # last bits.  Exact types (int, Fraction, bool) are compared exactly.
+            return cmath.isclose(a, b, rel_tol=1e-9, abs_tol=1e-12)
         return bool(r)
     except Exception:
         return False
